@@ -220,10 +220,10 @@ def obligations(tier):
     for ks in ([["sas"], ["iscsi", "fcp"], ["rdma", "iscsi-isid"]] + ([] if q else [["fcp", "1394", "rdma", "sas"],
                                                                                     ["iscsi", "iscsi", "iscsi-isid", "sas"]])):
         add("prout/spec_i_pt/%s" % "+".join(ks), "h_prout", sa=0, shape="spec_i_pt", kinds=ks)
-    for nl in ((0, 1, 2, 3, 4, 5, 6, 7, 8, 222, 223) if q else range(0, 224)):
-        add("prout/ram/iscsi/name-len=%d" % nl, "h_prout", sa=7, shape="ram", kinds=["iscsi"], name_len=nl)
-        if q and nl > 8:
-            continue
+    # (with a session id the text is name + ",i,0x" + 12 digits: 206/207 are where it crosses 223 characters)
+    for nl in ((0, 1, 2, 3, 4, 5, 6, 7, 8, 206, 207, 222, 223) if q else range(0, 224)):
+        if not (q and nl in (206, 207)):
+            add("prout/ram/iscsi/name-len=%d" % nl, "h_prout", sa=7, shape="ram", kinds=["iscsi"], name_len=nl)
         add("prout/ram/iscsi-isid/name-len=%d" % nl, "h_prout", sa=7, shape="ram", kinds=["iscsi-isid"], name_len=nl)
     for ten in (False, True):
         nm = "modeselect%d" % (10 if ten else 6)
